@@ -2,6 +2,8 @@ package c25
 
 import (
 	"encoding/json"
+	"fmt"
+	"strconv"
 
 	"verifharness/internal/hx"
 )
@@ -34,8 +36,14 @@ func genTLB(r *hx.Rand) json.RawMessage {
 	ps := uint64(1) << log2
 	in := &tlbIn{Log2: log2, NSets: 1 + r.Intn(5), VAddr: r.U64n(64)*ps + r.U64n(ps)}
 	n := 2 + r.Intn(6)
+	pids := []uint32{1, 2, 3, 12, 25, 123}
+	pgs := []uint64{0, 1, 2, 3, 4, 5, 0x23, 0x51, 0x37}
 	for i := 0; i < n; i++ {
-		in.Cached = append(in.Cached, pageIn{PID: uint32(1 + r.Intn(3)), VAddr: r.U64n(8) * ps})
+		in.Cached = append(in.Cached, pageIn{PID: pids[r.Intn(len(pids))], VAddr: pgs[r.Intn(len(pgs))] * ps})
+	}
+	if r.Chance(1, 2) { // the same virtual page cached for two processes
+		in.Cached = append(in.Cached, pageIn{PID: in.Cached[0].PID%3 + 1, VAddr: in.Cached[0].VAddr})
+		n++
 	}
 	switch r.Pick(2, 3, 2) {
 	case 0:
@@ -46,52 +54,118 @@ func genTLB(r *hx.Rand) json.RawMessage {
 	default:
 		in.Addrs = append(in.Addrs, in.Cached[r.Intn(n)].VAddr+r.U64n(ps))
 	}
-	if r.Bool() {
-		in.FPID = uint32(1 + r.Intn(3))
+	if r.Chance(1, 3) {
+		in.FPID = pids[r.Intn(len(pids))]
 	}
 	return hx.J(input{TLB: in})
 }
 
+// pidPools: process IDs over a wide range, including pairs where one PID's decimal string is
+// a prefix of the other's (1/12, 2/25, 12/123, 1/11/111): a (PID, address) key built by plain
+// concatenation would confuse such processes.
+var pidPools = [][]uint32{{1, 2, 3}, {1, 12}, {2, 25}, {12, 123}, {1, 11, 111}, {7, 70, 200}}
+
+// pagePool returns a few small page indices plus, for every prefix pair of PIDs, the page
+// indices whose hexadecimal spelling is "<remaining PID digits><spelling of a small index>".
+func pagePool(r *hx.Rand, pids []uint32, n int) []uint64 {
+	var pages []uint64
+	for g := 0; g < n; g++ {
+		pages = append(pages, uint64(g))
+	}
+	for _, a := range pids {
+		for _, b := range pids {
+			da, db := fmt.Sprint(a), fmt.Sprint(b)
+			if a == b || len(db) <= len(da) || db[:len(da)] != da {
+				continue
+			}
+			rest := db[len(da):]
+			for g := 1; g < n && g < 4; g++ {
+				if v, err := strconv.ParseUint(rest+strconv.FormatUint(uint64(g), 16), 16, 64); err == nil {
+					pages = append(pages, v)
+				}
+			}
+		}
+	}
+	return pages
+}
+
 func genStack(r *hx.Rand, nphase int) json.RawMessage {
+	return genStackWith(r, nphase, nil, false)
+}
+
+func genStackWith(r *hx.Rand, nphase int, pids []uint32, roomy bool) json.RawMessage {
 	k := uint64([]int{12, 12, 13, 16, 21}[r.Intn(5)])
+	if roomy {
+		k = uint64([]int{12, 16}[r.Intn(2)])
+	}
 	ps := uint64(1) << k
 	in := &stackIn{K: k, MMUCache: r.Chance(2, 5), GMMU: r.Chance(1, 3), Latency: 1 + r.Intn(6), Inflight: 1 + r.Intn(4),
 		Buf: 1 + r.Intn(5)}
 	for i := 0; i < 1+r.Intn(3); i++ {
-		in.TLBs = append(in.TLBs, tlbCfg{Sets: 1 + r.Intn(3), Ways: 1 + r.Intn(3), MSHR: 1 + r.Intn(3),
-			Latency: 1 + r.Intn(4), Width: 1 + r.Intn(3)})
+		c := tlbCfg{Sets: 1 + r.Intn(3), Ways: 1 + r.Intn(3), MSHR: 1 + r.Intn(3), Latency: 1 + r.Intn(4), Width: 1 + r.Intn(3)}
+		if roomy { // everything stays resident in one set
+			c.Sets, c.Ways = 1, 16+r.Intn(8)
+		} else if r.Chance(1, 3) {
+			c.Ways = 4 + r.Intn(6)
+		}
+		in.TLBs = append(in.TLBs, c)
 	}
 	for i := 0; i < 1+r.Intn(4); i++ {
 		in.MemDelay = append(in.MemDelay, []int{1, 3, 9, 30}[r.Intn(4)])
 	}
-	npid, npage := 1+r.Intn(3), 2+r.Intn(5)
+	if pids == nil {
+		switch r.Pick(2, 3, 1) {
+		case 0:
+			pids = pidPools[0][:1+r.Intn(3)]
+		case 1:
+			pids = pidPools[r.Intn(len(pidPools))]
+		default:
+			pids = []uint32{uint32(1 + r.Intn(200)), uint32(1 + r.Intn(200)), uint32(1 + r.Intn(200))}
+			if pids[0] == pids[1] || pids[1] == pids[2] || pids[0] == pids[2] {
+				pids = []uint32{5, 50, 150}
+			}
+		}
+	}
+	pages := pagePool(r, pids, 2+r.Intn(4))
 	frame := uint64(16)
 	newFrame := func() uint64 { frame += 1 + r.U64n(3); return frame * ps }
 	// initial page table
-	for p := 1; p <= npid; p++ {
-		for g := 0; g < npage; g++ {
-			in.Ops = append(in.Ops, stackOp{K: "map", PID: uint32(p), Page: uint64(g), PAddr: newFrame()})
+	for _, p := range pids {
+		for _, g := range pages {
+			in.Ops = append(in.Ops, stackOp{K: "map", PID: p, Page: g, PAddr: newFrame()})
 		}
 	}
+	rpid := func() uint32 { return pids[r.Intn(len(pids))] }
+	rpage := func() uint64 { return pages[r.Intn(len(pages))] }
 	acc := func(n int) {
 		for i := 0; i < n; i++ {
-			in.Ops = append(in.Ops, stackOp{K: "acc", PID: uint32(1 + r.Intn(npid)), VAddr: r.U64n(uint64(npage))*ps + r.U64n(ps/4)*4,
+			in.Ops = append(in.Ops, stackOp{K: "acc", PID: rpid(), VAddr: rpage()*ps + r.U64n(ps/4)*4,
 				Write: r.Chance(1, 3), Gap: r.Pick(4, 2, 1) * r.Intn(6)})
+		}
+	}
+	touchAll := func(g uint64) { // every process caches page g
+		for _, p := range pids {
+			in.Ops = append(in.Ops, stackOp{K: "acc", PID: p, VAddr: g*ps + r.U64n(ps/4)*4})
+		}
+	}
+	if roomy {
+		for _, g := range pages {
+			touchAll(g)
 		}
 	}
 	acc(4 + r.Intn(10))
 	for ph := 0; ph < nphase; ph++ {
-		switch r.Pick(5, 2, 2) {
+		switch r.Pick(5, 2, 2, 4) {
 		case 0: // quiesce, remap some pages, invalidate exactly those, go on
 			in.Ops = append(in.Ops, stackOp{K: "bar"})
-			p := uint32(1 + r.Intn(npid))
-			var pages []uint64
+			p := rpid()
+			var pgs []uint64
 			for i := 0; i < 1+r.Intn(2); i++ {
-				g := r.U64n(uint64(npage))
-				pages = append(pages, g)
+				g := rpage()
+				pgs = append(pgs, g)
 				in.Ops = append(in.Ops, stackOp{K: "map", PID: p, Page: g, PAddr: newFrame()})
 			}
-			op := stackOp{K: "inv", PID: p, Pages: pages}
+			op := stackOp{K: "inv", PID: p, Pages: pgs}
 			switch r.Pick(3, 1, 1) {
 			case 1:
 				op.All = true // everything of the process
@@ -100,9 +174,23 @@ func genStack(r *hx.Rand, nphase int) json.RawMessage {
 			}
 			in.Ops = append(in.Ops, op)
 		case 1: // remap under traffic WITHOUT invalidation: the old mapping stays permitted
-			in.Ops = append(in.Ops, stackOp{K: "map", PID: uint32(1 + r.Intn(npid)), Page: r.U64n(uint64(npage)), PAddr: newFrame()})
-		default: // quiesce and invalidate pages that did not change
-			in.Ops = append(in.Ops, stackOp{K: "bar"}, stackOp{K: "inv", PID: uint32(r.Intn(npid + 1)), Pages: []uint64{r.U64n(uint64(npage))}})
+			in.Ops = append(in.Ops, stackOp{K: "map", PID: rpid(), Page: rpage(), PAddr: newFrame()})
+		case 2: // quiesce and invalidate pages that did not change
+			op := stackOp{K: "inv", PID: rpid(), Pages: []uint64{rpage()}}
+			if r.Chance(1, 3) {
+				op.PID = 0
+			}
+			in.Ops = append(in.Ops, stackOp{K: "bar"}, op)
+		default: // a virtual page shared by all processes: everybody caches it, it is remapped for
+			// everybody, and ONE invalidation with the PID wildcard (PID 0) and that address covers all
+			g := rpage()
+			touchAll(g)
+			in.Ops = append(in.Ops, stackOp{K: "bar"})
+			for _, p := range pids {
+				in.Ops = append(in.Ops, stackOp{K: "map", PID: p, Page: g, PAddr: newFrame()})
+			}
+			in.Ops = append(in.Ops, stackOp{K: "inv", PID: 0, Pages: []uint64{g}})
+			touchAll(g)
 		}
 		acc(3 + r.Intn(10))
 	}
@@ -122,6 +210,10 @@ func gen(r *hx.Rand, tier string) []json.RawMessage {
 		hx.UJ(genStack(rr, 3), &in)
 		in.Stack.MMUCache, in.Stack.GMMU = sh.mc, sh.gm
 		out = append(out, hx.J(in))
+	}
+	// directed: prefix-related PIDs with alias-prone pages, everything resident (one big set)
+	for _, pool := range pidPools[1:] {
+		out = append(out, genStackWith(r.Fork(), 3, pool, true))
 	}
 	for i := 0; i < na; i++ {
 		out = append(out, genAT(r.Fork()))
@@ -160,9 +252,11 @@ func init() {
 		Rule: "Kernel probes: a real address translator (log2 page size in {0,1,12,13,16,21,30,63,64,70}, vaddr uniform / small / just above a page " +
 			"boundary / near 2^64, frame aligned / unaligned / last frame) and a real TLB (page sizes 2^12..2^21, 1-5 sets, 2-7 cached pages of 3 processes, " +
 			"Invalidate with empty / random / hitting address filter and optional PID filter). Stacks built from the real components: address translator, 1-3 " +
-			"TLB levels (1-3 sets x 1-3 ways, MSHR 1-3, latency 1-4), optional MMU cache, MMU or GMMU (every third page owned by another device and resolved through " +
-			"LowModule), page sizes 2^12..2^21, 1-3 processes x 2-6 pages, random frames; 1-4 phases of {quiesce + remap + invalidate exactly those pages / all of the " +
-			"process / everything, remap under traffic without invalidation, quiesce + invalidate unchanged pages} between bursts of reads/writes; port buffers 1-5, " +
+			"TLB levels (1-3 sets x 1-9 ways, MSHR 1-3, latency 1-4), optional MMU cache, MMU or GMMU (every third page owned by another device and resolved through " +
+			"LowModule), page sizes 2^12..2^21, processes drawn from PID pools over 1..200 incl. decimal-prefix pairs (1/12, 2/25, 12/123, 1/11/111) with the page indices whose hex " +
+			"spelling continues the longer PID (alias-prone keys), random frames; 1-4 phases of {quiesce + remap + invalidate exactly those pages / all of the " +
+			"process / everything, remap under traffic without invalidation, quiesce + invalidate unchanged pages (own PID or wildcard), a page cached by every process remapped for all and " +
+			"invalidated once with the PID-0 wildcard + address filter} between bursts of reads/writes; directed stacks per prefix pool with everything resident in one 16+-way set; port buffers 1-5, " +
 			"memory delays 1-30. The MMU-cache-below-TLB and GMMU-remote shapes are always included. Non-trivial: stack with >=4 accesses, >=4 translation " +
 			"responses, >=2 page-table writes; AT probe with an in-page offset; TLB probe where the filter drops some but not all pages.",
 		Gen: gen, Run: run, Shrink: shrink,
